@@ -1,0 +1,72 @@
+//! Verification hooks (only compiled with the `verif-hooks` cargo feature).
+//!
+//! Thread-local counters of how many sweeps each iterative pass has made.
+//! They are read by the runtime monitors in `/verif`; nothing in the
+//! library itself depends on them.
+
+use std::cell::Cell;
+
+/// Passes that iterate to a fixed point.
+#[derive(Debug, Clone, Copy, PartialEq, Eq)]
+pub enum Pass {
+    AvailableValue,
+    Liveness,
+    DeadCode,
+}
+
+thread_local! {
+    static AVAILABLE_VALUE: Cell<u64> = const { Cell::new(0) };
+    static LIVENESS: Cell<u64> = const { Cell::new(0) };
+    static DEAD_CODE: Cell<u64> = const { Cell::new(0) };
+    static LIMIT: Cell<u64> = const { Cell::new(0) };
+}
+
+/// Record one sweep of `pass` over the graph.
+///
+/// # Panics
+/// Panics with a recognisable message when a limit was set with
+/// [`set_limit`] and the counter of `pass` exceeds it (lets a monitor turn
+/// a non-terminating fixed-point loop into an observable event).
+pub fn sweep(pass: Pass) {
+    let n = match pass {
+        Pass::AvailableValue => AVAILABLE_VALUE.with(|c| {
+            c.set(c.get() + 1);
+            c.get()
+        }),
+        Pass::Liveness => LIVENESS.with(|c| {
+            c.set(c.get() + 1);
+            c.get()
+        }),
+        Pass::DeadCode => DEAD_CODE.with(|c| {
+            c.set(c.get() + 1);
+            c.get()
+        }),
+    };
+    let limit = LIMIT.with(Cell::get);
+    assert!(
+        limit == 0 || n <= limit,
+        "verif-hooks: sweep limit exceeded in {pass:?} ({n} > {limit})"
+    );
+}
+
+/// Reset all counters of the current thread.
+pub fn reset() {
+    AVAILABLE_VALUE.with(|c| c.set(0));
+    LIVENESS.with(|c| c.set(0));
+    DEAD_CODE.with(|c| c.set(0));
+}
+
+/// Read the counter of `pass` for the current thread.
+#[must_use]
+pub fn read(pass: Pass) -> u64 {
+    match pass {
+        Pass::AvailableValue => AVAILABLE_VALUE.with(Cell::get),
+        Pass::Liveness => LIVENESS.with(Cell::get),
+        Pass::DeadCode => DEAD_CODE.with(Cell::get),
+    }
+}
+
+/// Set the per-pass sweep limit of the current thread (0 = no limit).
+pub fn set_limit(limit: u64) {
+    LIMIT.with(|c| c.set(limit));
+}
